@@ -165,7 +165,7 @@ pub fn check_c03(ctx: &Ctx, known: &KnownFindings) -> Report {
         rep.direct(name, r, &ks);
     }
     let prop = (1500usize, c03_case);
-    let r = drive(&prop, ctx.cases(80_000, 2_000_000), ctx, 3, &ks);
+    let r = drive(&prop, ctx.cases(600_000, 8_000_000), ctx, 3, &ks);
     rep.absorb(r);
     rep.require(&["opt:Absent", "opt:Only", "opt:First", "opt:Middle", "opt:Last", "ptr-depth:0", "ptr-depth:1", "ptr-depth:2", "ptr-depth:3", "origin:valid", "origin:survivor", "records>=30", "len>16383"]);
     rep
@@ -322,7 +322,7 @@ pub fn check_c04(ctx: &Ctx, known: &KnownFindings) -> Report {
     rep.stats.class_n("sweep:flag-words", swept);
     rep.extra.insert("exhaustive_subspace".into(), json!(format!("all 65536 flag words x {} fixed shapes = {} packets", shapes.len(), swept)));
     let prop = (900usize, c04_case);
-    let r = drive(&prop, ctx.cases(60_000, 1_000_000), ctx, 4, &ks);
+    let r = drive(&prop, ctx.cases(500_000, 6_000_000), ctx, 4, &ks);
     rep.absorb(r);
     rep.require(&["with-opt", "without-opt", "question-via-pointer", "question-via-header-pointer", "sweep:flag-words"]);
     rep
